@@ -60,4 +60,16 @@ CLAIMED.update({
         "algorithm, and REQUIRES a violation on the stale-cache variant (non-vacuity). Every history of depth 4-5 is replayed on real stocks living in "
         "an MFASystem built from definitions and compared, after every compute, with a freshly built stock holding the same inputs.",
    technique="TLA+ state machine with L2 cache variable checked with TLC (3 variants); all histories replayed into flodym and compared with fresh objects"),
+ "C02": dict(engine="massbalance", ref="6/C02",
+   text="MassBalance.tla defines per-process contributions, the reduction to the common dimensions by label, the sysenv mirror entry, the tolerance "
+        "comparison on two-component numbers (NaN never within tolerance) and the flagged-flow set; TLC checks the mirror law and the expected "
+        "verdicts on every (balanced system, single-entry perturbation) and emits them; each is built as a real MFASystem through make_processes / "
+        "make_empty_flows / make_empty_stocks and both checks are run with explicit / default tolerance, raise_error True / False, three exception "
+        "lists, and again after rescaling all values of the same object.",
+   technique="TLA+ model of system graphs with two-component tolerance arithmetic checked with TLC (MC_MassBalance); every transition replayed into flodym"),
+ "C18": dict(engine="system", ref="6/C18",
+   text="System.tla states which definitions are refused (when the definition or the system is built) and what Build(def) must contain; TLC enumerates "
+        "definitions from pools and dimension-file variants; each is built through from_data_reader / from_csv / from_excel / manual assembly with "
+        "files written by the harness and every attribute of the result is compared.",
+   technique="TLA+ contract of system assembly enumerated by TLC (MC_System); every vector replayed through all construction routes"),
 })
